@@ -83,11 +83,14 @@ func (s *snapshot) getParts(dst []*part, minTimestamp, maxTimestamp int64) ([]*p
 }
 
 func (s *snapshot) incRef() {
+	verifPause("snapshot-incref")
 	atomic.AddInt32(&s.ref, 1)
+	verifSnapshotRef(s, 1, 0)
 }
 
 func (s *snapshot) decRef() {
 	n := atomic.AddInt32(&s.ref, -1)
+	verifSnapshotRef(s, -1, n)
 	if n > 0 {
 		return
 	}
